@@ -95,11 +95,11 @@ type opResult struct {
 }
 
 type pool struct {
-	n        int
-	timeout  time.Duration
-	deaths   int
-	flaky    int
-	mu       sync.Mutex
+	n       int
+	timeout time.Duration
+	deaths  int
+	flaky   int
+	mu      sync.Mutex
 }
 
 func newPool(timeout time.Duration) *pool {
